@@ -1521,6 +1521,114 @@ func checkNeverCalls(P *Program, prop string) []StructResult {
 	return out
 }
 
+// terminates: `//@ func F / terminates` - a termination fragment decided on the call graph and F's control-flow graph,
+// no solver: F is loop-free (no cycle in its control-flow graph), calls nothing through a function value, and is not
+// reachable from itself in the static call graph of the two packages (no direct or mutual recursion through F; calls
+// through interfaces count as calls of every method of that name in the two packages). F then returns if its callees
+// do: the callees that carry `terminates` themselves are decided the same way, the others are assumed to return and are
+// named in the detail.
+func init() { structuralChecks = append(structuralChecks, checkTerminates) }
+
+func checkTerminates(P *Program, prop string) []StructResult {
+	var out []StructResult
+	inPkgs := func(f *ssa.Function) bool {
+		return f.Pkg != nil && (f.Pkg.Pkg.Path() == enginePath || f.Pkg.Pkg.Path() == rootPath)
+	}
+	hasLoop := func(f *ssa.Function) bool {
+		state := map[*ssa.BasicBlock]int{}
+		var dfs func(b *ssa.BasicBlock) bool
+		dfs = func(b *ssa.BasicBlock) bool {
+			state[b] = 1
+			for _, s := range b.Succs {
+				if state[s] == 1 {
+					return true
+				}
+				if state[s] == 0 && dfs(s) {
+					return true
+				}
+			}
+			state[b] = 2
+			return false
+		}
+		return len(f.Blocks) > 0 && dfs(f.Blocks[0])
+	}
+	for _, key := range P.FuncOrd {
+		d := P.Funcs[key]
+		if !d.Has("terminates") || !(hasProp(d.Props(), prop) || (prop == "C05" && !d.Has("nosafety") && !d.Has("trusted"))) {
+			continue
+		}
+		res := StructResult{Name: key + ":terminates", OK: true}
+		fn := P.fnByKey[key]
+		if fn == nil {
+			res.OK, res.Detail = false, "no such function"
+			out = append(out, res)
+			continue
+		}
+		seen := map[*ssa.Function]bool{}
+		assumed := map[string]bool{}
+		var bad string
+		if hasLoop(fn) {
+			bad = key + " contains a loop"
+		}
+		var visit func(f *ssa.Function)
+		visit = func(f *ssa.Function) {
+			if bad != "" || seen[f] {
+				return
+			}
+			seen[f] = true
+			for _, b := range f.Blocks {
+				for _, in := range b.Instrs {
+					ci, ok := in.(ssa.CallInstruction)
+					if !ok {
+						continue
+					}
+					c := ci.Common()
+					var callees []*ssa.Function
+					if callee := c.StaticCallee(); callee != nil {
+						callees = append(callees, callee)
+					} else if c.IsInvoke() {
+						callees = methodsNamed(P, c.Method.Name(), len(c.Args))
+					} else if _, isBuiltin := c.Value.(*ssa.Builtin); !isBuiltin && f == fn {
+						bad = fmt.Sprintf("%s calls through a function value (%s)", fnKey(f), posOf(f, in.Pos()))
+						return
+					}
+					for _, callee := range callees {
+						if callee == fn {
+							bad = fmt.Sprintf("%s calls %s again: recursion through %s (%s)", fnKey(f), key, key, posOf(f, in.Pos()))
+							return
+						}
+						if !inPkgs(callee) {
+							continue
+						}
+						if cd, ok := P.Funcs[fnKey(callee)]; !ok || !cd.Has("terminates") {
+							if f == fn {
+								assumed[shortKey(fnKey(callee))] = true
+							}
+						}
+						visit(callee)
+						if bad != "" {
+							return
+						}
+					}
+				}
+			}
+		}
+		visit(fn)
+		if bad != "" {
+			res.OK, res.Detail = false, bad
+		} else {
+			var ex []string
+			for e := range assumed {
+				ex = append(ex, e)
+			}
+			sort.Strings(ex)
+			res.Detail = fmt.Sprintf("loop-free, not reachable from itself (%d functions below it); callees assumed to return: %s", len(seen)-1, strings.Join(ex, ", "))
+		}
+		out = append(out, res)
+	}
+	return out
+}
+
 // hasCtxParam: the function, or a function it is nested in, has a context.Context parameter
 func hasCtxParam(fn *ssa.Function) bool {
 	for f := fn; f != nil; f = f.Parent() {
